@@ -885,6 +885,48 @@ func genConstsFacts() map[string]any {
 		return true
 	})
 	_ = fset2
+	// wiring of RunNamedPipe: one event writer (one file handle, one encoder) handed to both pipelines; the sshd
+	// processor gets the node name and the machine id in that order, taken from GetNodeName / GetMachineID
+	writerMakes, writerVar := 0, ""
+	origin := map[string]string{}
+	var sshdArgs []string
+	auditEventW := ""
+	ast.Inspect(f2, func(n ast.Node) bool {
+		switch x := n.(type) {
+		case *ast.AssignStmt:
+			if len(x.Rhs) == 1 {
+				if c, ok := x.Rhs[0].(*ast.CallExpr); ok {
+					fn := selName(c.Fun)
+					if strings.HasPrefix(fn, "auditevent.New") && strings.HasSuffix(fn, "EventWriter") {
+						writerMakes++
+						if len(x.Lhs) >= 1 {
+							writerVar = selName(x.Lhs[0])
+						}
+					}
+					if (fn == "common.GetMachineID" || fn == "common.GetNodeName") && len(x.Lhs) >= 1 {
+						origin[selName(x.Lhs[0])] = fn
+					}
+				}
+			}
+		case *ast.CallExpr:
+			if selName(x.Fun) == "sshd.NewSshdProcessor" {
+				for _, a := range x.Args {
+					sshdArgs = append(sshdArgs, selName(a))
+				}
+			}
+		case *ast.CompositeLit:
+			if selName(x.Type) == "auditd.Auditd" {
+				for _, el := range x.Elts {
+					if kv, ok := el.(*ast.KeyValueExpr); ok && selName(kv.Key) == "EventW" {
+						auditEventW = selName(kv.Value)
+					}
+				}
+			}
+		}
+		return true
+	})
+	oneWriter := writerMakes == 1 && writerVar != "" && auditEventW == writerVar && len(sshdArgs) == 6 && sshdArgs[4] == writerVar
+	identityWired := len(sshdArgs) == 6 && origin[sshdArgs[2]] == "common.GetNodeName" && origin[sshdArgs[3]] == "common.GetMachineID"
 	if bufSize < 0 {
 		unsup("cmd/namedpipe.go: audit line channel capacity not recognised")
 	}
@@ -1126,7 +1168,7 @@ func genConstsFacts() map[string]any {
 	fmt.Fprintf(&b, "/-- period of the stale-data ticker in `Read` (ns) -/\ndef cleanupTickerNs : Int := %d\n", tickerNs)
 	fmt.Fprintf(&b, "/-- the cut-off passed to both cleanup methods is `now - cleanupCutoffBackNs` -/\ndef cleanupCutoffBackNs : Int := %d\n", cutoffNs)
 	fmt.Fprintf(&b, "def cleanupCallsBothWithCutoff : Bool := %v\n", cleanupOK)
-	fmt.Fprintf(&b, "def auditLogChanCap : Nat := %d\ndef loginsChanUnbuffered : Bool := %v\ndef errgroupWorkers : Nat := %d\ndef runReturnsWaitError : Bool := %v\ndef mainFatalOnError : Bool := %v\n", max64(bufSize, 0), loginsUnbuffered, egGo, waitReturned, fatal)
+	fmt.Fprintf(&b, "def auditLogChanCap : Nat := %d\ndef loginsChanUnbuffered : Bool := %v\ndef errgroupWorkers : Nat := %d\ndef runReturnsWaitError : Bool := %v\ndef mainFatalOnError : Bool := %v\n/-- `RunNamedPipe` creates ONE event writer and hands it to the sshd processor and to the audit processor -/\ndef oneSharedEventWriter : Bool := %v\n/-- the sshd processor gets (node name from GetNodeName, machine id from GetMachineID), in that order -/\ndef identityWiredInOrder : Bool := %v\n", max64(bufSize, 0), loginsUnbuffered, egGo, waitReturned, fatal, oneWriter, identityWired)
 	b.WriteString("\nend AM.Gen\n")
 	write("Consts.lean", b.String())
 
